@@ -48,7 +48,8 @@ def baseline(
         # otherwise take the last baseline we've seen in the channel
         if d["record_i"] == 0:
             seen_first[d["channel"]] = True
-            w = d["data"][:baseline_samples]
+            # Do not average the zero padding of a pulse shorter than baseline_samples
+            w = d["data"][: min(baseline_samples, d["length"])]
             last_bl_in[d["channel"]] = bl, rms = w.mean(), w.std()
         else:
             bl, rms = last_bl_in[d["channel"]]
